@@ -171,6 +171,7 @@ static int removable(const struct snap *s, const char *rel)
   return 1;
 }
 
+static int class_pair_limit;   /* pairs of classes are enumerated for snapshots with at most that many classes */
 static int FCFG;   /* configuration of the fault stage: 0 default, 1 every type kept (I/O and Misc discovery paths join P) */
 static void fault_cfg(struct ucfg *c) { if (FCFG) ucfg_keepall(c); else ucfg_default(c); }
 /* class of a removed path: digits runs replaced by N (cpu12 -> cpuN), used in violation keys so that a known
@@ -179,7 +180,7 @@ static void path_class(struct sb *b, const char *p)
 {
   for (; *p; p++) { if (isdigit((unsigned char)*p)) { sb_putc(b, 'N'); while (isdigit((unsigned char)p[1])) p++; } else sb_putc(b, *p); }
 }
-static void fault_load(const struct snap *s, const char **hide, int nh, const char *label)
+static void fault_load(const struct snap *s, const char **hide, int nh, const char *label, int by_class)
 {
   struct sb wb; sb_init(&wb); sb_printf(&wb, "%s:", label);
   for (int i = 0; i < nh; i++) { if (i) sb_putc(&wb, '+'); path_class(&wb, hide[i]); }
@@ -190,7 +191,8 @@ static void fault_load(const struct snap *s, const char **hide, int nh, const ch
   sb_free(&wb);
   hwloc_topology_t t = NULL; int rc = -9;
   struct ucfg c; fault_cfg(&c);
-  envfs_hide(hide, nh); envfs_mode(2); envfs_hits = 0;
+  if (by_class) envfs_hide_classes(hide, nh); else envfs_hide(hide, nh);
+  envfs_mode(2); envfs_hits = 0;
   MC.transitions++;
   if (MC_TRY(120000)) { rc = load_snapshot(&t, s, 0, &c); mc_try_end(); }
   envfs_mode(0);
@@ -207,7 +209,7 @@ static void fault_load(const struct snap *s, const char **hide, int nh, const ch
   mc_report_faults("destroy");
 }
 
-static void faults_of(const struct snap *s, uint64_t *idx, int pairs)
+static void faults_of(const struct snap *s, uint64_t *idx, int pairs, int singles)
 {
   /* pass 0: record */
   hwloc_topology_t t = NULL; struct ucfg c; fault_cfg(&c);
@@ -221,11 +223,11 @@ static void faults_of(const struct snap *s, uint64_t *idx, int pairs)
   for (size_t i = 0; i < np; i++) if (removable(s, P[i])) Q[nq++] = strdup(P[i]);
   if (MC.part == 0) { mc_count("paths_consulted", np); mc_count("paths_removable", nq); mc_count("snapshots_fault_enumerated", 1); mc_outcome("path_sets", "%s %s consulted=%zu removable=%zu", s->name, FCFG ? "keepall" : "default", np, nq); }
   mc_count_max("largest_removable_path_set", nq);
-  for (size_t i = 0; i < nq; i++, (*idx)++) {
+  for (size_t i = 0; singles && i < nq; i++, (*idx)++) {
     if (!mc_mine(*idx) || mc_deadline()) continue;
     if (!mc_case("linux %s %s without %s", s->name, FCFG ? "keepall" : "default", Q[i])) continue;
     const char *h[1] = { Q[i] };
-    fault_load(s, h, 1, "faulted-load");
+    fault_load(s, h, 1, "faulted-load", 0);
   }
   if (pairs) {
     /* bound 2: pairs under sys/devices/system */
@@ -235,10 +237,64 @@ static void faults_of(const struct snap *s, uint64_t *idx, int pairs)
       if (!mc_mine(*idx) || mc_deadline()) continue;
       if (!mc_case("linux %s %s without %s and %s", s->name, FCFG ? "keepall" : "default", Q[sysidx[a]], Q[sysidx[b]])) continue;
       const char *h[2] = { Q[sysidx[a]], Q[sysidx[b]] };
-      fault_load(s, h, 2, "faulted-load-2");
+      fault_load(s, h, 2, "faulted-load-2", 0);
     }
     else mc_count("snapshots_too_large_for_pairs", 1);
     free(sysidx);
+  }
+  /* path classes (every run of digits written N): what a kernel without that attribute, an architecture without
+   * that directory or a restricted mount really produces is the absence of EVERY instance.  Bound 1 = every class,
+   * bound 2 = every pair of classes (all snapshots whose class set is small enough, see the evidence).  A class is
+   * left out when one of its consulted instances is a numbered directory (never removed on its own). */
+  {
+    char **C = malloc((nq + 1) * sizeof(char *)); size_t nc = 0; char cls[4096], cls2[4096];
+    for (size_t i = 0; i < nq; i++) {
+      envfs_path_class(Q[i], cls, sizeof(cls));
+      size_t k; for (k = 0; k < nc; k++) if (!strcmp(C[k], cls)) break;
+      if (k < nc) continue;
+      int bad = 0;
+      for (size_t j = 0; j < np && !bad; j++) { envfs_path_class(P[j], cls2, sizeof(cls2)); if (!strcmp(cls, cls2)) { char full[1400]; struct stat st; snprintf(full, sizeof(full), "%s/%s", s->fsroot, P[j]); if (syscall(SYS_newfstatat, AT_FDCWD, full, &st, AT_SYMLINK_NOFOLLOW) == 0 && !removable(s, P[j])) bad = 1; } }
+      if (bad) { if (MC.part == 0) mc_count("classes_left_out_numbered_directory", 1); continue; }
+      C[nc++] = strdup(cls);
+    }
+    if (MC.part == 0) { mc_count("path_classes", nc); mc_outcome("class_sets", "%s %s classes=%zu", s->name, FCFG ? "keepall" : "default", nc); }
+    mc_count_max("largest_class_set", nc);
+    for (size_t i = 0; i < nc; i++, (*idx)++) {
+      if (!mc_mine(*idx) || mc_deadline()) continue;
+      if (!mc_case("linux %s %s without class %s", s->name, FCFG ? "keepall" : "default", C[i])) continue;
+      const char *h[1] = { C[i] };
+      fault_load(s, h, 1, "faulted-load", 1);
+      mc_count("class_removals_bound1", 1);
+    }
+    if (nc <= (size_t)class_pair_limit) {
+      for (size_t a = 0; a < nc; a++) for (size_t b = a + 1; b < nc; b++, (*idx)++) {
+        if (!mc_mine(*idx) || mc_deadline()) continue;
+        /* a class below another one adds nothing to it */
+        size_t la = strlen(C[a]), lb = strlen(C[b]);
+        if ((la < lb && !strncmp(C[a], C[b], la) && C[b][la] == '/') || (lb < la && !strncmp(C[a], C[b], lb) && C[a][lb] == '/')) continue;
+        if (!mc_case("linux %s %s without classes %s and %s", s->name, FCFG ? "keepall" : "default", C[a], C[b])) continue;
+        const char *h[2] = { C[a], C[b] };
+        fault_load(s, h, 2, "faulted-load-2", 1);
+        mc_count("class_removals_bound2", 1);
+      }
+      if (MC.part == 0) mc_count("snapshots_class_pairs_enumerated", 1);
+    } else if (MC.part == 0) { mc_count("snapshots_class_pairs_deferred", 1); mc_outcome("class_pairs_deferred", "%s %s classes=%zu", s->name, FCFG ? "keepall" : "default", nc); }
+    /* bound 3 (thorough): every triple of classes none of which lies below another, for small class sets */
+    if (MC.thorough && nc <= 40) {
+      for (size_t a = 0; a < nc; a++) for (size_t b = a + 1; b < nc; b++) for (size_t c = b + 1; c < nc; c++, (*idx)++) {
+        if (!mc_mine(*idx) || mc_deadline()) continue;
+        const char *h[3] = { C[a], C[b], C[c] }; int nested = 0;
+        for (int x = 0; x < 3 && !nested; x++) for (int y = 0; y < 3; y++) { size_t lx = strlen(h[x]); if (x != y && strlen(h[y]) > lx && !strncmp(h[x], h[y], lx) && h[y][lx] == '/') nested = 1; }
+        if (nested) continue;
+        if (!mc_case("linux %s %s without classes %s and %s and %s", s->name, FCFG ? "keepall" : "default", C[a], C[b], C[c])) continue;
+        fault_load(s, h, 3, "faulted-load-3", 1);
+        mc_count("class_removals_bound3", 1);
+      }
+      if (MC.part == 0) mc_count("snapshots_class_triples_enumerated", 1);
+    }
+    if (nc) mc_sample("linux %s %s without class %s (one of %zu classes)", s->name, FCFG ? "keepall" : "default", C[nc / 2], nc);
+    for (size_t i = 0; i < nc; i++) free(C[i]);
+    free(C);
   }
   if (nq) mc_sample("linux %s %s without %s (one of %zu removable paths out of %zu consulted)", s->name, FCFG ? "keepall" : "default", Q[nq / 2], nq, np);
   for (size_t i = 0; i < nq; i++) free(Q[i]);
@@ -263,6 +319,7 @@ int main(int argc, char **argv)
   } else {
     /* quick: snapshots whose removable path set is below a size bound; thorough: all */
     uint64_t idx = 0; size_t limit = MC.thorough ? 1000000 : (size_t)atoi(mc_opt("maxpaths") ? mc_opt("maxpaths") : "2500");
+    class_pair_limit = atoi(mc_opt("classpairs") ? mc_opt("classpairs") : (MC.thorough ? "400" : "60"));
     mc_note("fault enumeration: bound 1 on every Linux snapshot%s", MC.thorough ? ", bound 2 under sys/devices/system when <= 200 such paths" : " whose consulted path set has at most the quick limit");
     for (FCFG = 0; FCFG < 2; FCFG++) for (int i = 0; i < NS; i++) {
       if (strcmp(S[i].kind, "linux") && strcmp(S[i].kind, "x86+linux")) continue;
@@ -271,9 +328,9 @@ int main(int argc, char **argv)
       if (!MC.thorough) {
         hwloc_topology_t t = NULL; struct ucfg c; fault_cfg(&c); envfs_reset_record(); envfs_mode(1);
         int rc = load_snapshot(&t, &S[i], 0, &c); envfs_mode(0); if (rc == 0) hwloc_topology_destroy(t);
-        char **P; size_t np0 = envfs_recorded(&P); if (np0 > limit) { if (MC.part == 0) { mc_count("snapshots_deferred_to_thorough", 1); mc_outcome("deferred", "%s consulted=%zu", S[i].name, np0); } continue; }
+        char **P; size_t np0 = envfs_recorded(&P); if (np0 > limit) { if (MC.part == 0) { mc_count("snapshots_single_paths_deferred_to_thorough", 1); mc_outcome("deferred", "%s consulted=%zu (classes are enumerated)", S[i].name, np0); } faults_of(&S[i], &idx, 0, 0); continue; }
       }
-      faults_of(&S[i], &idx, MC.thorough);
+      faults_of(&S[i], &idx, MC.thorough, 1);
     }
   }
   return mc_finish(1);
